@@ -4,7 +4,7 @@ from .. import coqterm as ct
 from .. import memrun, runmodel
 from ..clock import CLOCK
 from ..pyparams import enc_params, mk_params, params_term
-from . import _mem
+from . import _mem, _redis
 
 S = memrun.S
 RULE = ("histories over one queue with normal (plain and topic-filtered), delayed- and dead-category consumers: messages with "
@@ -119,6 +119,7 @@ def run(ctx: Ctx) -> Result:
                 seen.add(kind)
                 res.failures.append(Failure(kind, what, {"history": _mem.strip(h), "where": where}, None))
     sched_cases(ctx, res, rng)
+    _redis.run_seq(ctx, res, "c12r", {"C12"}, "ttl", 150, 3000, rng)
     return res
 
 
